@@ -236,18 +236,36 @@ def gen_C09(rng, tier):
     for i in range(60 if tier == 'quick' else 1500):
         p = Prog('c09_k%d' % i)
         base = rand_shape(rng, 3, 3, 0)
-        ts = []
-        for j in range(4):
+        dim0 = rng.randrange(len(base)) if base else 0
+        ts, good = [], []
+        for j in range(5):
             s = list(base)
-            if s and rng.random() < 0.5: s[rng.randrange(len(s))] = rng.randint(1, 3)
-            if rng.random() < 0.1: s = s + [1]
-            ts.append(p.tensor(s, small_vals(prod(s))))
+            if s and j < 3:
+                s[dim0] = rng.randint(1, 3)              # compatible along dim0
+            elif s and rng.random() < 0.7:
+                s[rng.randrange(len(s))] = rng.randint(1, 4)
+            if j == 4 and rng.random() < 0.3: s = s + [1]
+            t = p.tensor(s, small_vals(prod(s)), tracked=rng.random() < 0.5)
+            ts.append(t)
+            if j < 3: good.append(t)
+        results = []
         for _ in range(8):
-            k = rng.randint(0, 4)
-            names = [rng.choice(ts) if rng.random() < 0.9 else 'nil' for _ in range(k)]
+            if base and rng.random() < 0.6:
+                # accepted call: compatible operands (repetition allowed), the dimension they differ in
+                names = [rng.choice(good) for _ in range(rng.randint(1, 4))]
+                d = dim0
+            else:
+                k = rng.randint(0, 4)
+                names = [rng.choice(ts) if rng.random() < 0.9 else 'nil' for _ in range(k)]
+                d = rng.choice(INTS)
             lst = ','.join(names) if names else rng.choice(['-', 'nil'])
-            r = p.bind('concat %s %d' % (lst, rng.choice(INTS))); p.add('obs %s' % r)
+            r = p.bind('concat %s %d' % (lst, d)); p.add('obs %s' % r)
+            results.append(r)
+        # back-propagation entry point: nil, an operand, and the results (accepted or not) of the calls above
         p.add('bp nil'); p.add('bp %s' % ts[0])
+        for r in rng.sample(results, 3):
+            p.add('bp %s' % r)
+        for t in ts: p.add('obs %s' % t)
         p.tag('concat')
         progs.append(p)
     # --- components
@@ -298,21 +316,42 @@ def gen_C09(rng, tier):
         inl = p.bind('input' if rng.random() < 0.5 else 'input seed=%s' % p.tensor([2], [1.0, 2.0]), 'f')
         y = p.bind('fwd %s' % inl); p.add('obs %s' % y)
         y = p.bind('fwd %s %s' % (inl, p.tensor([1], [1.0])))
-        # losses / metric
-        for _ in range(3):
-            j = p.bind(rng.choice(['mse', 'bce', 'ce']), 'j')
-            args = []
-            for _ in range(2):
-                s = rng.choice([[2], [3], [2, 2], [2, 3], [], [1, 2, 2]])
-                args.append(p.tensor(s, [0.25 * (v + 1) for v in range(prod(s))]) if rng.random() < 0.9 else 'nil')
+        # losses / metric: mostly accepted calls (the shapes each loss / the metric expects), plus a malformed stream
+        for _ in range(4):
+            kind = rng.choice(['mse', 'bce', 'ce'])
+            j = p.bind(kind, 'j')
+            if rng.random() < 0.6:
+                s = [rng.randint(1, 4), rng.randint(1, 3)] if kind == 'ce' else [rng.randint(1, 5)]
+                args = [p.tensor(s, [0.05 + 0.9 * ((3 * v + 1) % 7) / 7.0 for v in range(prod(s))], tracked=rng.random() < 0.5),
+                        p.tensor(s, [float((v + 1) % 2) for v in range(prod(s))])]
+            else:
+                args = []
+                for _ in range(2):
+                    s = rng.choice([[2], [3], [2, 2], [2, 3], [], [1, 2, 2]])
+                    args.append(p.tensor(s, [0.25 * (v + 1) for v in range(prod(s))]) if rng.random() < 0.9 else 'nil')
             l = p.bind('loss %s %s %s' % (j, args[0], args[1])); p.add('obs %s' % l)
+            if rng.random() < 0.5:
+                p.add('bp %s' % l)
+                if args[0] != 'nil': p.add('obs %s' % args[0])
             m = p.bind('accuracy', 'm')
-            p.add('acc %s %s %s' % (m, args[0], args[1])); p.add('result %s' % m)
-        # optimizer
-        o = p.bind('sgd %s' % rng.choice(['nil', f2b(0.1)]), 'o')
+            for _ in range(rng.randint(1, 3)):
+                if rng.random() < 0.6:
+                    k = rng.randint(1, 5)
+                    a2 = [p.tensor([k], [float(rng.randint(0, 2)) for _ in range(k)]) for _ in range(2)]
+                else:
+                    a2 = args
+                p.add('acc %s %s %s' % (m, a2[0], a2[1])); p.add('result %s' % m)
+        # optimizer: rejected calls (nil pointer, no gradient) and an accepted step followed by a second one without reset
+        o = p.bind('sgd %s' % rng.choice(['nil', f2b(0.1), f2b(-1.0), f2b(0.0)]), 'o')
         p.add('upd %s nilptr' % o)
         f = p.bind('fc 2 2', 'f'); q = p.bind('weight %s 0' % f, 'p')
         p.add('upd %s %s' % (o, q))
+        w = p.tensor([2], [0.5, -1.5], tracked=True); p.add('setptr %s %s' % (q, w))
+        z = p.bind('mul %s %s' % (w, w)); p.add('bp %s' % z)
+        p.add('upd %s %s' % (o, q)); nw = p.bind('deref %s' % q); p.add('obs %s' % nw)
+        p.add('upd %s %s' % (o, q))
+        if rng.random() < 0.5:
+            p.add('reset %s 1' % nw); z2 = p.bind('mul %s %s' % (nw, nw)); p.add('bp %s' % z2); p.add('upd %s %s' % (o, q))
         p.tag('components')
         progs.append(p)
     return progs
@@ -418,17 +457,63 @@ def gen_C10(rng, tier):
         live.append(w); snap()
         p.tag('no-mutation-of-existing')
         progs.append(p)
+    # (iv) chains of shape operations on tensors of rank 3-5: every result is the operand of further shape
+    # operations (so whatever a result's dimension list shares with its operand, or keeps as spare capacity, is carried
+    # along), and after every call all tensors so far are observed again; finally a back-propagation, observed again
+    import fwd as _fwd
+    for i in range(40 if tier == 'quick' else 1200):
+        p = Prog('c10_s%d' % i)
+        r0 = rng.randint(3, 5)
+        shape = [rng.randint(1, 3) for _ in range(r0)]
+        while prod(shape) > 200: shape[rng.randrange(r0)] = 1
+        live = [(p.tensor(shape, [float(v + 1) for v in range(prod(shape))], tracked=True), shape)]
+        def snap():
+            for t, _ in live[-7:]: p.add('obs %s' % t)
+        for step in range(rng.randint(4, 10)):
+            t, sh = rng.choice(live[-3:])
+            r = len(sh)
+            ops = ['unsqueeze', 'broadcast']
+            if r >= 1: ops += ['along', 'along', 'flatten', 'slice', 'reshape']
+            if r >= 2: ops += ['transpose']
+            if 1 in sh: ops += ['squeeze']
+            o = rng.choice(ops)
+            if o == 'unsqueeze':
+                d = rng.randint(0, r); nt = p.bind('unsqueeze %s %d' % (t, d)); nsh = sh[:d] + [1] + sh[d:]
+            elif o == 'squeeze':
+                d = rng.choice([j for j, v in enumerate(sh) if v == 1]); nt = p.bind('squeeze %s %d' % (t, d)); nsh = sh[:d] + sh[d + 1:]
+            elif o == 'along':
+                d = rng.randrange(r); nt = p.bind('%s %s %d' % (rng.choice(['sumalong', 'maxalong', 'minalong', 'avgalong', 'meanalong']), t, d)); nsh = sh[:d] + sh[d + 1:]
+            elif o == 'flatten':
+                d = rng.randrange(r); nt = p.bind('flatten %s %d' % (t, d)); nsh = sh[:d] + [prod(sh[d:])]
+            elif o == 'transpose':
+                nt = p.bind('transpose %s' % t); nsh = sh[:-2] + [sh[-1], sh[-2]]
+            elif o == 'reshape':
+                nsh = rng.choice(_fwd.factorizations(prod(sh), 5)); nt = p.bind('reshape %s %s' % (t, ints(nsh) if nsh else '-'))
+            elif o == 'slice':
+                idx = _fwd.rand_index(rng, sh); nt = p.bind('slice %s %s' % (t, ranges(idx) if idx else '-')); nsh = _fwd.sliced_shape(sh, idx)
+            else:
+                lead = [rng.randint(1, 2) for _ in range(rng.randint(0, 2))]
+                nsh = lead + [(rng.randint(2, 3) if v == 1 and rng.random() < 0.5 else v) for v in sh]
+                if prod(nsh) > 400: nsh = list(sh)
+                nt = p.bind('broadcast %s %s' % (t, ints(nsh) if nsh else '-'))
+            live.append((nt, nsh))
+            snap()
+        last, lsh = live[-1]
+        p.add('bp %s' % last)
+        for t, _ in live: p.add('obs %s' % t)
+        p.tag('shape-op-chains', 'rank%d' % r0)
+        progs.append(p)
     # (iii) programs of the other properties' generators, instrumented: after every call every tensor bound so
     # far is observed again (the model is immutable by construction, so any in-place change shows up)
     import fwd, grad, comp
     pool = []
     sub = 'quick'
-    for g in (fwd.gen_C04, fwd.gen_C06, fwd.gen_C03, fwd.gen_C05, grad.gen_C02, grad.gen_C07, comp.gen_C16, comp.gen_C13, comp.gen_C15):
+    for g in (fwd.gen_C04, fwd.gen_C06, fwd.gen_C03, fwd.gen_C05, grad.gen_C01, grad.gen_C02, grad.gen_C07, comp.gen_C16, comp.gen_C13, comp.gen_C15, comp.gen_C14):
         got = g(rng, sub)
         rng.shuffle(got)
-        pool += got[:(12 if tier == 'quick' else 150)]
+        pool += got[:(40 if tier == 'quick' else 300)]
     for q in pool:
-        if len(q.lines) > 60:
+        if len(q.lines) > 120:
             continue
         p = Prog('c10_i_' + q.name)
         bound = []
